@@ -967,8 +967,9 @@ func compileDeclStmt(ctx *blockCtx, expr *ast.DeclStmt) {
 				compileType(ctx, spec.(*ast.TypeSpec))
 			}
 		case token.CONST:
-			cdecl := ctx.pkg.NewConstDefs(ctx.cb.Scope())
-			loadConstSpecs(ctx, cdecl, d.Specs)
+			scope := ctx.cb.Scope()
+			cdecl := ctx.pkg.NewConstDefs(scope)
+			loadConstSpecs(ctx, cdecl, d.Specs, scope)
 		case token.VAR:
 			for _, spec := range d.Specs {
 				v := spec.(*ast.ValueSpec)
